@@ -2,11 +2,11 @@ package main
 
 import (
 	"flag"
-	"math/big"
-	"strconv"
 	"fmt"
+	"math/big"
 	"os"
 	"sort"
+	"strconv"
 	"strings"
 	"sync"
 	"time"
@@ -17,15 +17,16 @@ import (
 )
 
 type World struct {
-	prog  *ssa.Program
-	pkgs  []*packages.Package
-	spkgs []*ssa.Package
-	db    *SpecDB
-	repo  string
-	funcs map[string]*ssa.Function // by contract key
-	repoP map[string]bool
+	prog           *ssa.Program
+	pkgs           []*packages.Package
+	spkgs          []*ssa.Package
+	db             *SpecDB
+	repo           string
+	funcs          map[string]*ssa.Function   // by contract key
+	insts          map[string][]*ssa.Function // generic function (by contract key of the origin) -> instantiations
+	repoP          map[string]bool
 	mutatedGlobals map[string]bool
-	allFuncs map[string]*ssa.Function
+	allFuncs       map[string]*ssa.Function
 }
 
 func loadWorld(repo, specDir string) (*World, error) {
@@ -50,7 +51,7 @@ func loadWorld(repo, specDir string) (*World, error) {
 	if err != nil {
 		return nil, err
 	}
-	w := &World{prog: prog, pkgs: pkgs, spkgs: spkgs, db: db, repo: repo, funcs: map[string]*ssa.Function{}, repoP: map[string]bool{}}
+	w := &World{prog: prog, pkgs: pkgs, spkgs: spkgs, db: db, repo: repo, funcs: map[string]*ssa.Function{}, repoP: map[string]bool{}, insts: map[string][]*ssa.Function{}}
 	for _, p := range pkgs {
 		w.repoP[p.PkgPath] = true
 	}
@@ -95,6 +96,11 @@ func loadWorld(repo, specDir string) (*World, error) {
 		for _, k := range contractKeys(fn) {
 			if _, dup := w.funcs[k]; !dup {
 				w.funcs[k] = fn
+			}
+		}
+		if fn.Origin() != nil && fn.Origin() != fn {
+			for _, k := range contractKeys(fn.Origin()) {
+				w.insts[k] = append(w.insts[k], fn)
 			}
 		}
 	}
@@ -245,36 +251,42 @@ func cmdVerify(args []string) {
 			fmt.Fprintf(os.Stderr, "no function %s\n", name)
 			os.Exit(2)
 		}
-		x := w.newExec()
-		c := x.contractFor(f)
-		if os.Getenv("GVC_DUMPSSA") != "" {
-			f.WriteTo(os.Stderr)
+		fl := []*ssa.Function{f}
+		if is := w.insts[name]; len(is) > 0 {
+			fl = is
+			sort.Slice(fl, func(i, j int) bool { return fl[i].String() < fl[j].String() })
 		}
-		t0 := time.Now()
-		res := x.VerifyFunction(f, c)
-		fmt.Printf("== %s: %d obligations (symbolic execution %.2fs)\n", name, len(res.Obligations), time.Since(t0).Seconds())
-		if res.Err != nil {
-			fmt.Printf("   ERROR: %v\n", res.Err)
-		}
-		rs := discharge(x, res, *work, *timeout, nil)
-		for _, r := range rs {
-			fmt.Printf("   %-8s %-8s %6.2fs  %s\n", r.Ans.Status, r.Ans.Solver, r.Ans.Time, r.O.Name)
-			if r.Ans.Status != "unsat" && *dump {
-				fmt.Printf("      src: %s  pos: %s\n      answers: %v\n", r.O.Src, r.O.Pos, r.Ans.Answers)
-				if r.Ans.Status == "error" {
-					fmt.Println(r.Ans.Output)
+		for _, f := range fl {
+			x := w.newExec()
+			c := x.contractFor(f)
+			if os.Getenv("GVC_DUMPSSA") != "" {
+				f.WriteTo(os.Stderr)
+			}
+			t0 := time.Now()
+			res := x.VerifyFunction(f, c)
+			fmt.Printf("== %s: %d obligations (symbolic execution %.2fs)\n", name, len(res.Obligations), time.Since(t0).Seconds())
+			if res.Err != nil {
+				fmt.Printf("   ERROR: %v\n", res.Err)
+			}
+			rs := discharge(x, res, *work, *timeout, nil)
+			for _, r := range rs {
+				fmt.Printf("   %-8s %-8s %6.2fs  %s\n", r.Ans.Status, r.Ans.Solver, r.Ans.Time, r.O.Name)
+				if r.Ans.Status != "unsat" && *dump {
+					fmt.Printf("      src: %s  pos: %s\n      answers: %v\n", r.O.Src, r.O.Pos, r.Ans.Answers)
+					if r.Ans.Status == "error" {
+						fmt.Println(r.Ans.Output)
+					}
 				}
 			}
-		}
-		for _, n := range res.Unmodelled {
-			fmt.Printf("   unmodelled: %s\n", n)
-		}
-		for _, n := range res.Trusted {
-			fmt.Printf("   trusted: %s\n", n)
-		}
-		for _, n := range res.Notes {
-			fmt.Printf("   note: %s\n", n)
+			for _, n := range res.Unmodelled {
+				fmt.Printf("   unmodelled: %s\n", n)
+			}
+			for _, n := range res.Trusted {
+				fmt.Printf("   trusted: %s\n", n)
+			}
+			for _, n := range res.Notes {
+				fmt.Printf("   note: %s\n", n)
+			}
 		}
 	}
 }
-
